@@ -753,7 +753,9 @@ func lexPredicate(l *lexer) stateFn {
 	for done := false; !done; {
 		switch r := l.next(); r {
 		case backSlash:
-			if nr := l.peek(); nr == quote {
+			// Predicate IDs are printed Go-quoted: a backslash escapes whatever
+			// follows it, in particular another backslash (\\" ends the ID).
+			if nr := l.peek(); nr != eof {
 				l.next()
 				continue
 			}
